@@ -42,3 +42,218 @@ pub mod clock {
         t.saturating_duration_since(base()).as_nanos()
     }
 }
+
+/// In-memory stand-ins for `tokio::net::{UdpSocket, TcpStream}` with exactly
+/// the methods `util/nameserver.rs` and `util/net.rs` use.  Every datagram or
+/// TCP request is handed to a handler the test harness installs, which decides
+/// what (if anything) comes back and after how long.
+pub mod net {
+    use std::future::Future;
+    use std::io;
+    use std::net::SocketAddr;
+    use std::pin::Pin;
+    use std::sync::Mutex;
+    use std::task::{Context, Poll};
+    use std::time::Duration;
+    use tokio::io::{AsyncRead, AsyncWrite, ReadBuf};
+    use tokio::time::Sleep;
+
+    #[derive(Debug, Clone, Copy, Eq, PartialEq)]
+    pub enum Proto {
+        Udp,
+        Tcp,
+    }
+
+    /// What the peer does with one request.
+    #[derive(Debug, Clone)]
+    pub struct Reply {
+        /// Bytes sent back (for TCP: the raw stream bytes, length prefix
+        /// included); `None` = nothing is ever sent.
+        pub bytes: Option<Vec<u8>>,
+        /// Delay before the bytes arrive.
+        pub delay: Duration,
+        /// TCP only: close the stream after the bytes (otherwise it stays open
+        /// and silent).
+        pub close: bool,
+        /// Fail `connect` (TCP) / `send` (UDP) with an I/O error.
+        pub refuse: bool,
+    }
+
+    pub type Handler = Box<dyn FnMut(Proto, SocketAddr, &[u8]) -> Reply + Send>;
+
+    static HANDLER: Mutex<Option<Handler>> = Mutex::new(None);
+
+    pub fn set_handler(h: Option<Handler>) {
+        *HANDLER.lock().unwrap() = h;
+    }
+
+    fn call_handler(proto: Proto, addr: SocketAddr, bytes: &[u8]) -> Reply {
+        let mut g = HANDLER.lock().unwrap();
+        match g.as_mut() {
+            Some(h) => h(proto, addr, bytes),
+            None => Reply {
+                bytes: None,
+                delay: Duration::ZERO,
+                close: false,
+                refuse: true,
+            },
+        }
+    }
+
+    fn refused() -> io::Error {
+        io::Error::new(io::ErrorKind::ConnectionRefused, "verif: refused")
+    }
+
+    pub struct UdpSocket {
+        peer: Mutex<Option<SocketAddr>>,
+        pending: Mutex<Option<Reply>>,
+    }
+
+    impl UdpSocket {
+        #[allow(clippy::unused_async)]
+        pub async fn bind(_addr: &str) -> io::Result<Self> {
+            Ok(Self {
+                peer: Mutex::new(None),
+                pending: Mutex::new(None),
+            })
+        }
+
+        #[allow(clippy::unused_async)]
+        pub async fn connect(&self, addr: SocketAddr) -> io::Result<()> {
+            *self.peer.lock().unwrap() = Some(addr);
+            Ok(())
+        }
+
+        #[allow(clippy::unused_async)]
+        pub async fn send(&self, bytes: &[u8]) -> io::Result<usize> {
+            let peer = self.peer.lock().unwrap().ok_or_else(refused)?;
+            self.send_to(bytes, peer).await
+        }
+
+        #[allow(clippy::unused_async)]
+        pub async fn send_to(&self, bytes: &[u8], target: SocketAddr) -> io::Result<usize> {
+            let reply = call_handler(Proto::Udp, target, bytes);
+            if reply.refuse {
+                return Err(refused());
+            }
+            *self.pending.lock().unwrap() = Some(reply);
+            Ok(bytes.len())
+        }
+
+        pub async fn recv(&self, buf: &mut [u8]) -> io::Result<usize> {
+            let reply = self.pending.lock().unwrap().take();
+            match reply {
+                Some(Reply {
+                    bytes: Some(bytes),
+                    delay,
+                    ..
+                }) => {
+                    if !delay.is_zero() {
+                        tokio::time::sleep(delay).await;
+                    }
+                    let n = bytes.len().min(buf.len());
+                    buf[..n].copy_from_slice(&bytes[..n]);
+                    Ok(n)
+                }
+                _ => std::future::pending().await,
+            }
+        }
+    }
+
+    pub struct TcpStream {
+        addr: SocketAddr,
+        written: Vec<u8>,
+        answered: bool,
+        to_read: Vec<u8>,
+        read_pos: usize,
+        close: bool,
+        delay: Option<Pin<Box<Sleep>>>,
+    }
+
+    impl TcpStream {
+        #[allow(clippy::unused_async)]
+        pub async fn connect(addr: SocketAddr) -> io::Result<Self> {
+            // an empty request is the connection attempt itself
+            let probe = call_handler(Proto::Tcp, addr, &[]);
+            if probe.refuse {
+                return Err(refused());
+            }
+            Ok(Self {
+                addr,
+                written: Vec::new(),
+                answered: false,
+                to_read: Vec::new(),
+                read_pos: 0,
+                close: false,
+                delay: None,
+            })
+        }
+
+        fn maybe_answer(&mut self) {
+            if self.answered || self.written.len() < 2 {
+                return;
+            }
+            let want = usize::from(u16::from_be_bytes([self.written[0], self.written[1]]));
+            if self.written.len() < 2 + want {
+                return;
+            }
+            self.answered = true;
+            let reply = call_handler(Proto::Tcp, self.addr, &self.written[2..2 + want]);
+            self.close = reply.close;
+            if !reply.delay.is_zero() {
+                self.delay = Some(Box::pin(tokio::time::sleep(reply.delay)));
+            }
+            if let Some(bytes) = reply.bytes {
+                self.to_read = bytes;
+            }
+        }
+    }
+
+    impl AsyncWrite for TcpStream {
+        fn poll_write(
+            mut self: Pin<&mut Self>,
+            _cx: &mut Context<'_>,
+            buf: &[u8],
+        ) -> Poll<io::Result<usize>> {
+            self.written.extend_from_slice(buf);
+            self.maybe_answer();
+            Poll::Ready(Ok(buf.len()))
+        }
+
+        fn poll_flush(self: Pin<&mut Self>, _cx: &mut Context<'_>) -> Poll<io::Result<()>> {
+            Poll::Ready(Ok(()))
+        }
+
+        fn poll_shutdown(self: Pin<&mut Self>, _cx: &mut Context<'_>) -> Poll<io::Result<()>> {
+            Poll::Ready(Ok(()))
+        }
+    }
+
+    impl AsyncRead for TcpStream {
+        fn poll_read(
+            mut self: Pin<&mut Self>,
+            cx: &mut Context<'_>,
+            buf: &mut ReadBuf<'_>,
+        ) -> Poll<io::Result<()>> {
+            if let Some(d) = self.delay.as_mut() {
+                match d.as_mut().poll(cx) {
+                    Poll::Pending => return Poll::Pending,
+                    Poll::Ready(()) => self.delay = None,
+                }
+            }
+            if self.read_pos < self.to_read.len() {
+                let n = (self.to_read.len() - self.read_pos).min(buf.remaining());
+                let start = self.read_pos;
+                buf.put_slice(&self.to_read[start..start + n]);
+                self.read_pos += n;
+                Poll::Ready(Ok(()))
+            } else if self.answered && self.close {
+                // end of stream
+                Poll::Ready(Ok(()))
+            } else {
+                // open and silent: only a timeout ends this
+                Poll::Pending
+            }
+        }
+    }
+}
